@@ -27,9 +27,19 @@ GatherWhy ==
   IF \E sc \in {"file", "cwrap_include", "cwrap_impl"} : Filter(g, Scope, sc) # T.out[sc]
   THEN <<"helper order differs from depth-first dependency order", g>>
   ELSE <<>>
+\* kind "requests": one resolved statement-table entry: the helpers whose functions its code templates call, the
+\* helpers it requests (c_helper / f_helper) and the dependency table of the helpers
+RequestsWhy ==
+  LET got == Reach(SeqToSet(T.requests), T.deps)
+      missing == SeqToSet(T.uses) \ got IN
+  IF missing # {} THEN <<"code of the statement calls a helper it does not request", T.name, missing>>
+  ELSE IF T.nfunc > T.nfhelpers THEN <<"statement refers to more helper names than it requests", T.name, T.nfunc, T.nfhelpers>>
+  ELSE <<>>
 Verdict ==
   /\ ~fin /\ fin' = TRUE
-  /\ IF T.kind = "gather"
+  /\ IF T.kind = "requests"
+     THEN PrintT(<<"VERDICT", tid>> \o (IF RequestsWhy # <<>> THEN <<"REJECT">> \o RequestsWhy ELSE <<"ACCEPT", "ok">>))
+     ELSE IF T.kind = "gather"
      THEN PrintT(<<"VERDICT", tid>> \o (IF GatherWhy # <<>> THEN <<"REJECT">> \o GatherWhy ELSE <<"ACCEPT", "ok">>))
      ELSE /\ i > Len(T.events)
           /\ PrintT(<<"VERDICT", tid>> \o (IF faults # <<>> THEN <<"REJECT">> \o faults[1] ELSE <<"ACCEPT", "ok">>))
